@@ -46,7 +46,7 @@ func (c *Ctx) yamlSchema(t types.Type, dir string, depth int) string {
 			}
 			return false
 		}
-		if (dir == "enc" && has("MarshalYAML")) || (dir == "dec" && has("UnmarshalYAML")) {
+		if (dir == "enc" && has("MarshalYAML") && !c.shapePreservingMarshal(n)) || (dir == "dec" && has("UnmarshalYAML")) {
 			return "scalar<" + typeName(n) + ">"
 		}
 	}
@@ -270,6 +270,10 @@ func ruleCodec(c *Ctx) {
 	for _, n := range scalars {
 		c.site(1)
 		m, u := c.hasMethod(n, "MarshalYAML"), c.hasMethod(n, "UnmarshalYAML")
+		if m && !u && c.shapePreservingMarshal(n) {
+			c.ok("scalar|"+typeName(n), c.pos(n.Obj().Pos()), "", typeName(n)+"'s MarshalYAML keeps the type's own YAML shape (the same map, or a mapping node): the default decoder reads it")
+			continue
+		}
 		c.check(m && u, "scalar|"+typeName(n), c.pos(n.Obj().Pos()), "", typeName(n)+" has MarshalYAML and UnmarshalYAML", fmt.Sprintf("%s has MarshalYAML=%v UnmarshalYAML=%v: one direction falls back to yaml.v3's default struct/number encoding, so a printed value does not read back", typeName(n), m, u))
 	}
 	// inverse tables are built from their forward tables
@@ -447,6 +451,26 @@ func ruleCodec(c *Ctx) {
 			}
 		}
 		c.check(sep && order && single, fname(fn), c.pos(fn.Pos()), fname(fn), "splits on `/`, numerator first; a bare number has denominator 1", fmt.Sprintf("ParseRat: separator=%v numerator-first=%v bare-number=%v — a printed fraction does not read back", sep, order, single))
+	}
+	// free-text map keys: yaml.v3 writes the key `<<` plain and reads it back as a merge key, so a map of metadata texts
+	// needs an encoder of its own that quotes it (metadata keys are arbitrary text up to `{}=,` and white space)
+	{
+		c.site(1)
+		good := false
+		where := ""
+		if m := c.fn("op", "Meta.MarshalYAML"); m != nil {
+			where = c.pos(m.Pos())
+			for _, f := range c.regionFuncChainsList(m) {
+				allInstrs(f, func(in ssa.Instruction) {
+					for _, op := range in.Operands(nil) {
+						if s, ok := constString(*op); ok && s == "<<" {
+							good = true
+						}
+					}
+				})
+			}
+		}
+		c.check(good, "op.Meta|merge-key", where, "op.Meta", "the metadata map has its own YAML encoder that treats the key `<<`", "op.Meta (free-text metadata keys and values) is handed to yaml.v3 as a plain map: the key `<<` is printed unquoted and `crd write` then refuses the document (`map merge requires map`): `printf 'C[1]{<<=x}' | crd text conv syllable | crd write` fails")
 	}
 	// Key.String: letter + accidental + minor mark
 	if fn := c.fn("op", "Key.String"); fn != nil {
@@ -1324,4 +1348,66 @@ func (c *Ctx) octaveSplitByFolding(f *ssa.Function, quo bool) (string, bool) {
 		}
 	}
 	return "", true
+}
+
+
+// shapePreservingMarshal: every return of T.MarshalYAML yields T's own underlying map type or a *yaml.Node (built as a
+// mapping when T is a map): what is printed has the shape the default decoder of T expects, no UnmarshalYAML is needed.
+func (c *Ctx) shapePreservingMarshal(n *types.Named) bool {
+	if _, isMap := n.Underlying().(*types.Map); !isMap {
+		return false
+	}
+	var fn *ssa.Function
+	for _, tt := range []types.Type{n, types.NewPointer(n)} {
+		ms := c.Prog.MethodSets.MethodSet(tt)
+		for i := 0; i < ms.Len(); i++ {
+			if ms.At(i).Obj().Name() == "MarshalYAML" {
+				if f := c.Prog.MethodValue(ms.At(i)); f != nil && f.Synthetic == "" {
+					fn = f
+				}
+			}
+		}
+	}
+	if fn == nil || len(fn.Blocks) == 0 {
+		return false
+	}
+	rets := returnsOf(fn)
+	if len(rets) == 0 {
+		return false
+	}
+	for _, r := range rets {
+		v := retVal(r, 0)
+		mi, ok := v.(*ssa.MakeInterface)
+		if !ok {
+			return false
+		}
+		t := mi.X.Type()
+		if types.Identical(t.Underlying(), n.Underlying()) {
+			continue
+		}
+		if p, ok := t.(*types.Pointer); ok && typeName(p.Elem()) == "gopkg.in/yaml.v3.Node" {
+			// a mapping node
+			isMapping := false
+			if al, ok := mi.X.(*ssa.Alloc); ok {
+				for _, ref := range *al.Referrers() {
+					if fa, ok := ref.(*ssa.FieldAddr); ok {
+						if fnm, _, _ := fieldName(fa); fnm == "Kind" {
+							for _, rr := range *fa.Referrers() {
+								if st, ok := rr.(*ssa.Store); ok {
+									if k, ok := constInt(st.Val); ok && k == 4 { // yaml.MappingNode
+										isMapping = true
+									}
+								}
+							}
+						}
+					}
+				}
+			}
+			if isMapping {
+				continue
+			}
+		}
+		return false
+	}
+	return true
 }
